@@ -1118,8 +1118,10 @@ int FMesher::DoPeriodicBCTriangulation(string PathName)
 #endif // DEBUG
 
 		// pbc
-		if ( (problem->lineproplist[i]->BdryFormat==4)
-             || (problem->lineproplist[i]->BdryFormat==5))
+		// the numbers of the (anti)periodic types differ between the file types (4/5 magnetics and heat flow, 3/4 electrostatics);
+		// 6 and 7 are the air gap elements handled below
+		if ( problem->lineproplist[i]->isPeriodic(CBoundaryProp::PeriodicityType::Any)
+             && (problem->lineproplist[i]->BdryFormat<6))
         {
 #ifdef DEBUG
         {
@@ -1129,9 +1131,8 @@ int FMesher::DoPeriodicBCTriangulation(string PathName)
         }
 #endif // DEBUG
 			pbc.BdryName=problem->lineproplist[i]->BdryName;
-			pbc.BdryFormat = problem->lineproplist[i]->BdryFormat - 4; // 0 for pbc, 1 for apbc
-
 			pbc.antiPeriodic = problem->lineproplist[i]->isPeriodic(CBoundaryProp::PeriodicityType::AntiPeriodic);
+			pbc.BdryFormat = pbc.antiPeriodic ? 1 : 0; // 0 for pbc, 1 for apbc
 
 			pbclst.push_back(pbc.clone());
 		}
